@@ -193,6 +193,33 @@ def tlc_ok(res, what):
                              % (what, res.rc, res.errors[:5], res.violated[:5], name, tail))
 
 
+def apalache(work, module, inv, length=0, timeout=1800, init='Init', nxt='Next'):
+    """Run the symbolic model checker Apalache on work/<module>.tla (module and everything it
+    extends carry @type annotations). Returns (outcome, wall, output); outcome is 'NoError',
+    'Error' (a counterexample to `inv` exists) or 'Failed' (anything else: machinery)."""
+    out_dir = tempfile.mkdtemp(prefix='apa_', dir=work.dir)
+    cmd = ['apalache-mc', 'check', '--init=' + init, '--next=' + nxt, '--inv=' + inv,
+           '--length=%d' % length, '--out-dir=' + out_dir, '%s.tla' % module]
+    e = dict(os.environ)
+    e.pop('JAVA_TOOL_OPTIONS', None)
+    e['JVM_ARGS'] = '-Xmx6g'
+    t0 = time.time()
+    try:
+        p = subprocess.run(cmd, cwd=work.dir, env=e, stdout=subprocess.PIPE, stderr=subprocess.STDOUT,
+                           timeout=timeout)
+        out = p.stdout.decode('utf-8', 'replace')
+    except subprocess.TimeoutExpired as ex:
+        out = (ex.stdout or b'').decode('utf-8', 'replace') + '\nTIMEOUT'
+        subprocess.run(['pkill', '-f', out_dir], check=False)
+    wall = time.time() - t0
+    shutil.rmtree(out_dir, ignore_errors=True)
+    if 'The outcome is: NoError' in out and 'EXITCODE: OK' in out:
+        return 'NoError', wall, out
+    if 'The outcome is: Error' in out and 'EXITCODE: ERROR (12)' in out:
+        return 'Error', wall, out
+    return 'Failed', wall, out
+
+
 def sany(work, module):
     p = subprocess.run(['tla-sany', '%s.tla' % module], cwd=work.dir,
                        stdout=subprocess.PIPE, stderr=subprocess.STDOUT)
@@ -411,8 +438,10 @@ class Report(object):
               'level': 'model_checking', 'coverage': cov,
               'assumptions': self.assumptions, 'wall_s': round(wall, 2),
               'violations': nviol}
-        os.makedirs(os.path.join(VERIF, 'evidence'), exist_ok=True)
-        with open(os.path.join(VERIF, 'evidence', '%s.json' % self.prop), 'w') as f:
+        # runs against a changed tree (seeded changes) must not overwrite the evidence of the unchanged tree
+        evdir = os.environ.get('VERIF_EVIDENCE_DIR') or os.path.join(VERIF, 'evidence')
+        os.makedirs(evdir, exist_ok=True)
+        with open(os.path.join(evdir, '%s.json' % self.prop), 'w') as f:
             json.dump(ev, f, indent=1, sort_keys=True)
         for ln in lines:
             print(ln)
